@@ -132,11 +132,13 @@ Section ExtractSteps.
     - exists R. split; [exact HF' | exact HP].
     - rewrite ext_objs_snoc, SO. simpl. rewrite perm_rearr.
       rewrite (filter_partition_perm (ex_in c false) (g_objs g)). apply (iv_objs _ _ _ _ _ _ I).
-    - unfold piece_ok. simpl. apply perm_filter_notmem; [exact NDO | apply NoDup_fids_clear; exact ND|].
+    - split; [|apply ex_rem_ends]. simpl. apply perm_filter_notmem; [exact NDO | apply NoDup_fids_clear; exact ND|].
       intro x. rewrite InClr, (inv_obj_in g0 g ext xs nears cs I). tauto.
     - apply Forall_app. split; [apply (iv_piece_ext _ _ _ _ _ _ I)|]. constructor; [|constructor].
-      unfold piece_ok. simpl. rewrite SO, SR. apply perm_filter_mem; [exact NDO | exact NDK|].
-      intros a Ha. apply (inv_obj_in g0 g ext xs nears cs I). apply IncK. exact Ha.
+      split.
+      + simpl. rewrite SO, SR. apply perm_filter_mem; [exact NDO | exact NDK|].
+        intros a Ha. apply (inv_obj_in g0 g ext xs nears cs I). apply IncK. exact Ha.
+      + cbn [snd]. rewrite SE, SO. apply (ex_ng_ends c false).
     - apply (iv_piece_near _ _ _ _ _ _ I).
     - rewrite ext_edges_snoc, SE, map_app. rewrite perm_rearr4.
       rewrite (edges_split c false). apply (iv_edges _ _ _ _ _ _ I).
@@ -148,15 +150,13 @@ Section ExtractSteps.
         * unfold absid. simpl. eapply path_inv; [exact HF' | exact HP | apply (gd_nd g0 G0)|].
           apply InClr. split; assumption.
         * apply InClr. split; assumption.
-    - apply ex_rem_ends.
-    - simpl. apply root_ok_clear. apply (iv_near_f _ _ _ _ _ _ I).
   Qed.
 
   (* the nested graph of an extraction is again a good graph *)
   Lemma ex_ng_good_kids c :
-    find_f (t_id c) (g_roots g) = Some c -> find_f (t_id c) (g_roots g0) = Some c -> good (ex_ng c false g).
+    near_f g -> find_f (t_id c) (g_roots g) = Some c -> find_f (t_id c) (g_roots g0) = Some c -> good (ex_ng c false g).
   Proof.
-    intros Hf Hf0.
+    intros NF Hf Hf0.
     pose proof (inv_nd g0 g ext xs nears cs G0 I) as ND.
     pose proof (inv_nd_objs g0 g ext xs nears cs G0 I) as NDO.
     pose proof (find_f_NoDup _ _ _ ND Hf) as NDc. destruct (NoDup_kids c NDc) as [NDK HcK].
@@ -170,7 +170,7 @@ Section ExtractSteps.
     - apply ex_ng_ends.
     - apply ex_ng_trip.
     - simpl. apply forallb_root_ok_of_no_near.
-      apply (root_near_find _ _ _ (iv_near_f _ _ _ _ _ _ I) Hf).
+      apply (root_near_find _ _ _ NF Hf).
   Qed.
 
   (* ---- ExtractSubgraph(c, true) for a child of the root ---- *)
@@ -222,7 +222,7 @@ Section ExtractSteps.
         apply Permutation_app_head. rewrite (app_assoc (ext_objs ext)).
         apply Permutation_app_comm.
       + rewrite (filter_partition_perm (ex_in c true) (g_objs g)). apply (iv_objs _ _ _ _ _ _ I).
-    - unfold piece_ok. rewrite Erem. simpl. apply perm_filter_notmem.
+    - split; [|apply ex_rem_ends]. rewrite Erem. simpl. apply perm_filter_notmem.
       + exact NDO.
       + pose proof ND as ND2. rewrite EF in ND2. rewrite fids_app, fids_cons in ND2. rewrite fids_app.
         apply NoDup_app_intro; [eapply NoDup_app_l; exact ND2 | apply NoDup_app_r in ND2; eapply NoDup_app_r; exact ND2|].
@@ -230,18 +230,26 @@ Section ExtractSteps.
       + intro y. rewrite InRem, (inv_obj_in g0 g ext xs nears cs I). tauto.
     - apply (iv_piece_ext _ _ _ _ _ _ I).
     - apply Forall_app. split; [apply (iv_piece_near _ _ _ _ _ _ I)|]. constructor; [|constructor].
-      split.
-      + unfold piece_ok. rewrite SO, SR. simpl. rewrite app_nil_r. apply perm_filter_mem; [exact NDO | exact NDc|].
+      split; [split|].
+      + rewrite SO, SR. simpl. rewrite app_nil_r. apply perm_filter_mem; [exact NDO | exact NDc|].
         intros a Ha. apply (inv_obj_in g0 g ext xs nears cs I). apply Incc. exact Ha.
+      + cbn [snd]. rewrite SE, SO. apply (ex_ng_ends c true).
       + destruct Hcl as [cl [E1 E2]]. exists c, cl. auto.
     - rewrite near_edges_snoc, SE, map_app. rewrite perm_rearr5.
       rewrite (edges_split c true). apply (iv_edges _ _ _ _ _ _ I).
     - apply Forall_app. split; [apply (iv_x _ _ _ _ _ _ I) | apply ex_xs_ok].
     - eapply Forall2_impl_in; [|apply (iv_extp _ _ _ _ _ _ I)]. cbv beta. intros d pe Hd [H1 H2]. split; [exact H1|].
       rewrite Erem. apply InRem. split; [exact H2 | apply Hno; exact Hd].
-    - apply ex_rem_ends.
-    - rewrite Erem. pose proof (iv_near_f _ _ _ _ _ _ I) as Hnf. rewrite EF in Hnf.
-      rewrite forallb_app in *. simpl in Hnf. apply andb_true_iff in Hnf as [H1 H2]. apply andb_true_iff in H2 as [_ H2].
-      rewrite H1, H2. reflexivity.
+  Qed.
+
+  Lemma near_f_clear c : near_f g -> near_f (ex_rem c false g).
+  Proof. intro NF. unfold near_f. simpl. apply root_ok_clear. exact NF. Qed.
+
+  Lemma near_f_remove c : In c (g_roots g) -> near_f g -> near_f (ex_rem c true g).
+  Proof.
+    intros Hin NF. pose proof (inv_nd g0 g ext xs nears cs G0 I) as ND. apply in_split in Hin as [F1 [F2 EF]].
+    unfold near_f in *. simpl. rewrite EF in *. rewrite rem_f_root by exact ND.
+    rewrite forallb_app in *. simpl in NF. apply andb_true_iff in NF as [H1 H2]. apply andb_true_iff in H2 as [_ H2].
+    rewrite H1, H2. reflexivity.
   Qed.
 End ExtractSteps.
